@@ -439,7 +439,10 @@ impl World {
     /// io_close_prep/io_close: `file_index == 0` closes regular `sqe.fd`, else slot `file_index - 1`.
     fn oracle_close_sqe(&mut self, sqe: &abi::Sqe) {
         let how = if sqe.user_data == 3 { "CLOSE submitted by Drop" } else { "CLOSE submitted by close()" };
-        if sqe.file_index == 0 {
+        if sqe.flags & abi::SQE_FIXED_FILE != 0 {
+            // io_close_prep: `if (req->flags & REQ_F_FIXED_FILE) return -EBADF;`
+            self.fail(format!("{how} carries IOSQE_FIXED_FILE (fd = {}, file_index = {}): the kernel refuses such a CLOSE with EBADF, nothing is closed", sqe.fd, sqe.file_index));
+        } else if sqe.file_index == 0 {
             if sqe.fd < 0 {
                 self.fail(format!("{how} names the negative descriptor {}", sqe.fd));
             } else {
@@ -486,7 +489,7 @@ impl World {
                     match (sqe.opcode, what) {
                         (abi::OP_CLOSE, Some(Queued::CloseBg)) | (abi::OP_CLOSE, Some(Queued::CloseOp(_))) => {
                             let bg = sqe.user_data == 3;
-                            self.obs.extend([20, bg as i128, sqe.fd as i128, sqe.file_index as i128]);
+                            self.obs.extend([20, bg as i128, sqe.fd as i128, sqe.file_index as i128, (sqe.flags & abi::SQE_FIXED_FILE != 0) as i128]);
                             if bg != matches!(what, Some(Queued::CloseBg)) {
                                 self.fail(format!("CLOSE with user_data {:#x} queued as {what:?}", sqe.user_data));
                             }
@@ -851,7 +854,17 @@ impl World {
         }
         let before = simk::with(|s| s.sq_pending());
         let obj = self.handles[h].obj.take();
+        // One drop in three: should the drop fall back to close(2) (queue full), that call is
+        // interrupted by a signal — the descriptor is closed all the same and must not be closed
+        // again (the number may belong to somebody else by then).
+        let intr = (self.obs.len() + h) % 3 == 0;
+        if intr {
+            simk::set_close_eintr(1);
+        }
         let r = std::panic::catch_unwind(std::panic::AssertUnwindSafe(move || drop(obj)));
+        if intr {
+            simk::set_close_eintr(0);
+        }
         self.note_queued(before, Queued::CloseBg);
         if r.is_err() {
             let msg = self.panic_msg();
